@@ -181,23 +181,27 @@ def fsDump (t : Fs.Tree) : String :=
     hexStr (StrOps.join p ['/']) ++ "=" ++ (match n with | .dir => "d" | .file c => "f" ++ hexStr c)
   ",".intercalate entries.toArray.qsort.toList
 
+/-- the initial file tree of a request: `-` or a comma-separated list of `h<hex path>=d` / `h<hex path>=f<hex contents>` -/
+def parseFs (files : String) : Fs.Tree :=
+  let fs : Fs.Tree := if files == "-" then [] else
+    (files.splitOn ",").filterMap fun e =>
+      match e.splitOn "=" with
+      | [p, c] =>
+        -- the entries of the initial tree are named by their components (no `..`: the harness lists
+        -- each file and directory by its canonical path below the sandbox root)
+        let comps := Fs.components (unhex p)
+        if c == "d" then some (comps, FsNode.dir) else some (comps, FsNode.file (unhex (c.drop 1).toString))
+      | _ => none
+  -- a listed file lies in directories: its ancestors exist as directories (the tree is parent-closed, as on disk)
+  fs.foldl (fun acc e =>
+    (Fs.prefixes e.1).dropLast.foldl (fun a q => if Fs.pathExists a q then a else (q, FsNode.dir) :: a) acc) fs
+
 /-- `RUN <src> <stdin> <filepath> <fuel> <rng,...|-> <files path=content,...|->` -/
 def handleRun (args : List String) : String :=
   match args with
   | [src, stdin, path, fuel, rng, files] =>
     let rngL := if rng == "-" then [] else (rng.splitOn ",").filterMap String.toNat?
-    let fs : Fs.Tree := if files == "-" then [] else
-      (files.splitOn ",").filterMap fun e =>
-        match e.splitOn "=" with
-        | [p, c] =>
-          -- the entries of the initial tree are named by their components (no `..`: the harness lists
-          -- each file and directory by its canonical path below the sandbox root)
-          let comps := Fs.components (unhex p)
-          if c == "d" then some (comps, FsNode.dir) else some (comps, FsNode.file (unhex (c.drop 1).toString))
-        | _ => none
-    -- a listed file lies in directories: its ancestors exist as directories (the tree is parent-closed, as on disk)
-    let fs : Fs.Tree := fs.foldl (fun acc e =>
-      (Fs.prefixes e.1).dropLast.foldl (fun a q => if Fs.pathExists a q then a else (q, FsNode.dir) :: a) acc) fs
+    let fs : Fs.Tree := parseFs files
     let world : World := { stdin := unhex stdin, rng := rngL, fs := fs }
     let out := run cfg fuel.toNat! (unhex src) world (unhex path)
     let status := match out.status with
@@ -218,19 +222,24 @@ def handleRun (args : List String) : String :=
     s!"{status} {hexStr out.output} fs={fsd} cyclic={cyclic}"
   | _ => "bad-request"
 
-/-- `CLI <mode> <debug> <check> <src> <stdin>` -/
+/-- `CLI <mode> <debug> <check> <src> <stdin> [<path> <files>]`: the optional pair gives the path of the program file
+(empty with `-e` and `--eval-stdin`) and the files standing in the working directory (user modules) -/
+def cliAnswer (mode debug check src stdin path files : String) : String :=
+  let m := if mode == "file" then SourceMode.file else if mode == "eval" then .eval else .evalStdin
+  let d := match debug with
+    | "time" => DebugMode.time | "all" => .all | "lexer" => .lexer | "parser" => .parser
+    | "interpreter" => .interpreter | _ => .none
+  let world : World := { stdin := unhex stdin, fs := parseFs files }
+  let out := cliRun cfg 1000000 ⟨m, d, check == "1"⟩ (unhex src) world (unhex path)
+  -- a run the model cannot finish within its budget (unbounded recursion, ...) is outside the properties
+  let fuel := match (run cfg 1000000 (unhex src) world (unhex path)).status with
+    | .fuel => true | _ => false
+  s!"{if out.exitZero then 0 else 1} {hexStr out.stdout} {if out.stderrNonEmpty then 1 else 0} fuel={if fuel then 1 else 0}"
+
 def handleCli (args : List String) : String :=
   match args with
-  | [mode, debug, check, src, stdin] =>
-    let m := if mode == "file" then SourceMode.file else if mode == "eval" then .eval else .evalStdin
-    let d := match debug with
-      | "time" => DebugMode.time | "all" => .all | "lexer" => .lexer | "parser" => .parser
-      | "interpreter" => .interpreter | _ => .none
-    let out := cliRun cfg 1000000 ⟨m, d, check == "1"⟩ (unhex src) { stdin := unhex stdin } []
-    -- a run the model cannot finish within its budget (unbounded recursion, ...) is outside the properties
-    let fuel := match (run cfg 1000000 (unhex src) { stdin := unhex stdin } []).status with
-      | .fuel => true | _ => false
-    s!"{if out.exitZero then 0 else 1} {hexStr out.stdout} {if out.stderrNonEmpty then 1 else 0} fuel={if fuel then 1 else 0}"
+  | [mode, debug, check, src, stdin] => cliAnswer mode debug check src stdin "h" "-"
+  | [mode, debug, check, src, stdin, path, files] => cliAnswer mode debug check src stdin path files
   | _ => "bad-request"
 
 def handle (line : String) : String :=
